@@ -77,7 +77,7 @@ shutil.copy(f'{src}/patch.diff', dst)
 shutil.copy(f'{src}/demo_test.go', dst)
 meta['confirmed_by_me'] = res
 rules = []
-for pr in detected:
+for pr in [x for x in detected if x == prop]:
     for h in det[pr]['findings']:
         mm = re.match(r'\[(R[\d.]+)\]', h)
         if mm and mm.group(1) not in rules:
